@@ -1,2 +1,39 @@
-(* C09 placeholder *)
-From Rdest Require Import Base Consts Wire Manager Handler.
+(* C09 — uploads return exactly the requested stored bytes, or nothing. *)
+From Rdest Require Import Base Consts Wire Manager MgrProofs Handler HandlerProofs.
+Open Scope N_scope.
+
+(* for every request (any index / begin / length, with or without overflow checks) and whatever is loaded
+   and whatever the manager answers: the task does not panic; it sends nothing, or exactly one piece message
+   with the same index and offset carrying exactly bytes [begin, begin+length) of the loaded piece file, with
+   the range inside the piece and at most 16 KiB long *)
+Theorem C09_reply : forall cf disk ovf s ri rb rl reply,
+  match handle_request cf disk ovf s ri rb rl reply with
+  | HPanic _ => False
+  | o => pieces_in (acts_of o) = [] \/
+         exists t, load_tx cf disk s ri reply = Ok (Some t) /\ tx_index t mod 4294967296 = ri /\ ri < c_pieces_num cf mod 4294967296 /\
+                   rl <= 16384 /\ rb + rl <= len (tx_buff t) /\
+                   pieces_in (acts_of o) = [(ri, rb, slice (tx_buff t) rb rl)]
+  end.
+Proof. intros. apply request_answer. reflexivity. Qed.
+
+(* the manager lets a piece be loaded only for a peer it has unchoked and only a piece it owns ... *)
+Theorem C09_manager : forall m a i pick m' j bc sp, mstep m (CRequest a i) pick = Ok (m', RReq_Load j, bc, sp) ->
+  j = i /\ m' = m /\ i < pieces_n m /\ nthN (m_status m) i = Some Have /\
+  exists p, pget (m_peers m) a = Some p /\ p_am_choked p = false.
+Proof. exact load_only_unchoked_owned. Qed.
+
+(* ... and what is loaded is forgotten when we choke the peer, so the next request asks the manager again *)
+Theorem C09_choke_drops : forall sha1 cf disk ovf s r, exists s', hstep sha1 cf disk ovf s (EBroadOwn (Some true)) r = HCont s' [ASend Choke] /\ h_tx s' = None.
+Proof. intros. eexists. split; reflexivity. Qed.
+
+(* the pinned validation (32-bit addition) is refuted by the model with the repair flag off: see
+   known_findings.json request-offset-overflow; non-vacuity of the answer: *)
+Example C09_nonvacuous :
+  let cf := mkconf [] [] 1 [[7]] in
+  let disk := fun h => if bytes_eqb h [7] then Some [10;11;12;13;14] else None in
+  acts_of (handle_request cf disk true (h_init None) 0 1 3 (Some (RReq_Load 0))) = [ACmd (KRequest 0); ASend (Piece 0 1 [11;12;13])].
+Proof. vm_compute. reflexivity. Qed.
+
+Print Assumptions C09_reply.
+Print Assumptions C09_manager.
+Print Assumptions C09_choke_drops.
